@@ -28,6 +28,7 @@ def run(ctx):
     windows(ctx, g)
     b = exactness(ctx, g)
     vmins(ctx, g, b)
+    bookkeeping(ctx, g)
     filters(ctx, g)
     ctx.clauses.append("numbered consecutively from 1 (T4)")
     counter_rule(ctx, "T4-consecutive-numbering", M + "DSyms::new", "<generators::dsym_generators::DSyms as std::iter::Iterator>::next", "SimpleDSym::from_partial", g)
@@ -154,6 +155,100 @@ def exactness(ctx, g):
                "CURV_FAC = %d is divisible by every branching value 1..=%d and by 2" % (F_, B) if not bad else
                "CURV_FAC = %d is not divisible by %s: the integer curvature k*CURV_FAC/v is rounded, symbols are misclassified" % (F_, bad))
     return B
+
+
+def bookkeeping(ctx, g):
+    """the scaled integer curvature is CURV_FAC * (sum over the 01- and 12-orbits of k/v - size/2) with k = 1 for a chain orbit and 2
+    otherwise (the same quantity as delaney2d::curvature, whose 02-orbits contribute size/2): the base value, the per-orbit term and the
+    update in children() are decided by evaluating the expressions on all (k, v) in {1, 2} x 1..=7"""
+    ctx.clauses.append("scaled curvature bookkeeping: base value, per-orbit term k*CURV_FAC/v and the update in children() agree (T4, expressions evaluated on all k, v)")
+    F_ = ctx.facts.consts.get(M + "CURV_FAC", {}).get("int")
+    nb = ctx.body(M + "DSymBackTracking::new")
+    ch = ctx.body(BT + "children")
+
+    def k_defs(b, kl, chain_field_pred):
+        """{value: polarity of the is_chain test that dominates the definition}"""
+        out = {}
+        for dbb, d in b.all_defs_origins(kl[1]):
+            v = eval_int(norm(d, g))
+            pol = None
+            for a in b.facts_at(dbb):
+                a = atom_norm(a, g)
+                if a[0] == "bool" and chain_field_pred(a[1]):
+                    pol = a[2]
+            out[v] = pol
+        return out
+    # --- new(): base_curvature
+    bl = [l for l, n in nb.debug.items() if n == "base_curvature"]
+    if not bl:
+        raise AnchorMissing("DSymBackTracking::new: base_curvature")
+    defs = [(dbb, norm(d, g)) for dbb, d in nb.all_defs_origins(bl[0])]
+    loops = natural_loops(nb)
+    init = [d for dbb, d in defs if not any(dbb in bs for h, bs in loops)]
+    upd = [d for dbb, d in defs if any(dbb in bs for h, bs in loops)]
+    dset = ("param", 1, nb.debug.get(1, ""))
+    size_t = [x for d in init for x in subterms(d) if isinstance(x, tuple) and ((x[0] == "field" and x[2] == "size") or is_call(x, "DSet::size")) and contains(x, lambda y: y == dset)]
+    okinit = False
+    if len(init) == 1 and size_t:
+        okinit = all(eval_term_env(init[0], {size_t[0]: n}) == -(F_ // 2) * n for n in (1, 2, 7, 12, 48))
+    ctx.ob("T4-curvature-bookkeeping", nb.name, "base = -CURV_FAC/2 * size", "ok" if okinit else "violation",
+           "the base curvature starts at -CURV_FAC/2 * size()" if okinit else "the base curvature does not start at -CURV_FAC/2 * dset.size(): %s" % [show(d, 1)[:70] for d in init])
+    okupd = False
+    det = "no accumulation found"
+    if len(upd) == 1:
+        u = upd[0]
+        me = ("local", bl[0], "base_curvature")
+        kl = [x for x in subterms(u) if x[0] == "local" and nb.debug.get(x[1]) == "k"]
+        vm = [x for x in subterms(u) if x[0] in ("index",) or is_call(x, "Index::index")]
+        vm = [x for x in vm if contains(x, lambda y: is_call(y, "compute_vmins")) or contains(x, lambda y: y[0] == "local" and nb.debug.get(y[1]) == "orbit_vmins")]
+        if kl and vm:
+            okupd = True
+            for kv in (1, 2):
+                for v in range(1, 8):
+                    got = eval_term_env(u, {me: 1000, kl[0]: kv, vm[0]: v})
+                    if got != 1000 + kv * F_ // v:
+                        okupd = False
+                        det = "for k = %d, vmin = %d the orbit adds %s, not k*CURV_FAC/v = %d" % (kv, v, None if got is None else got - 1000, kv * F_ // v)
+            kd = k_defs(nb, kl[0], lambda t: contains(t, lambda y: is_call(y, "collect_orbits") or (y[0] == "local" and nb.debug.get(y[1]) == "orbit_is_chain")))
+            if okupd and kd != {1: True, 2: False}:
+                okupd = False
+                det = "k is not (1 for a chain orbit, 2 otherwise): %s" % kd
+        else:
+            det = "the accumulated term does not read k and orbit_vmins[i]: " + show(u, 1)[:80]
+    ctx.ob("T4-curvature-bookkeeping", nb.name, "base += k*CURV_FAC/vmin[i]", "ok" if okupd else "violation",
+           "every orbit adds k*CURV_FAC/vmin with k = 1 for chains, 2 otherwise (14 (k, v) pairs)" if okupd else det)
+    # --- children(): curv
+    cl = [l for l, n in ch.debug.items() if n == "curv"]
+    st = ("param", 2, ch.debug.get(2, ""))
+    okc = False
+    det = "curv not found"
+    for l in cl:
+        for dbb, d in ch.all_defs_origins(l):
+            d = norm(d, g)
+            kl = [x for x in subterms(d) if x[0] == "local" and ch.debug.get(x[1]) == "k"]
+            old = ("field", st, "curv")
+            vmin = ("index", ("field", st, "vs"), ("field", st, "next"))
+            vmin2 = ("call", "std::ops::Index::index", (("field", st, "vs"), ("field", st, "next")))
+            vs_ = [x for x in subterms(d) if x[0] == "field" and x[1][0] == "variant" and is_call(x[1][1], "Iterator::next")]
+            vm = [x for x in subterms(d) if x in (vmin, vmin2)]
+            if not (kl and vs_ and vm and contains(d, lambda y: y == old)):
+                det = "the child's curvature is not computed from state.curv, k, state.vs[state.next] and the loop's v: " + show(d, 1)[:90]
+                continue
+            okc = True
+            for kv in (1, 2):
+                for a in range(1, 8):
+                    for b_ in range(a, 8):
+                        got = eval_term_env(d, {old: 5000, kl[0]: kv, vm[0]: a, vs_[0]: b_})
+                        if got != 5000 - kv * F_ // a + kv * F_ // b_:
+                            okc = False
+                            det = "for k = %d, raising v from %d to %d changes the curvature by %s, not by -k*CURV_FAC/%d + k*CURV_FAC/%d = %d" % (
+                                kv, a, b_, None if got is None else got - 5000, a, b_, -kv * F_ // a + kv * F_ // b_)
+            kd = k_defs(ch, kl[0], lambda t: contains(t, lambda y: y[0] == "field" and y[2] == "orbit_is_chain") and contains(t, lambda y: y == ("field", st, "next")))
+            if okc and kd != {1: True, 2: False}:
+                okc = False
+                det = "k is not (1 if orbit_is_chain[state.next], 2 otherwise): %s" % kd
+    ctx.ob("T4-curvature-bookkeeping", ch.name, "curv' = curv - k*F/vmin + k*F/v", "ok" if okc else "violation",
+           "raising orbit n from its minimal v to v replaces its term k*CURV_FAC/vmin by k*CURV_FAC/v (56 (k, vmin, v) triples), same k as in the base value" if okc else det)
 
 
 def vmins(ctx, g, B):
